@@ -194,8 +194,10 @@ func (sp *ServiceProvider) Metadata() *EntityDescriptor {
 		for _, intermediate := range sp.Intermediates {
 			certBytes = append(certBytes, intermediate.Raw...)
 		}
-		keyDescriptors = []KeyDescriptor{
-			{
+		// Assertions are encrypted to the SP with RSA key transport, so only an RSA
+		// certificate is advertised for encryption.
+		if _, ok := sp.Certificate.PublicKey.(*rsa.PublicKey); ok {
+			keyDescriptors = append(keyDescriptors, KeyDescriptor{
 				Use: "encryption",
 				KeyInfo: KeyInfo{
 					X509Data: X509Data{
@@ -210,7 +212,7 @@ func (sp *ServiceProvider) Metadata() *EntityDescriptor {
 					{Algorithm: "http://www.w3.org/2001/04/xmlenc#aes256-cbc"},
 					{Algorithm: "http://www.w3.org/2001/04/xmlenc#rsa-oaep-mgf1p"},
 				},
-			},
+			})
 		}
 		if len(sp.SignatureMethod) > 0 {
 			keyDescriptors = append(keyDescriptors, KeyDescriptor{
